@@ -21,7 +21,10 @@ CLAIMED = {
    text="Contract proof (CBMC, loop-free, full domain of the ghost model) on the real text of Infty::add/mul/div/pow/rpow, Infty predicates, "
         "NaN::add/mul/div/pow/rpow and Number::sub/rsub/div/rdiv: the extended-number rule table of the statement (nan absorbs, oo + -oo = nan, "
         "0*oo = nan, finite factor keeps/flips direction, commutativity of + and * when one operand is an infinity or nan). "
-        "Finite x finite double dispatch and the 'float op finite is never exact' clause are not under contract.",
+        "The clause 'a finite float op a finite number is never exact' is proved at kind level on the in-class arithmetic of RealDouble and ComplexDouble "
+        "(add/sub/rsub/mul/div/rdiv dispatchers and their helpers, every kind of the other operand): the result is built as a RealDouble or ComplexDouble, complex iff an operand is; "
+        "one deliberate exception (RealDouble times the exact Integer 0 returns the exact 0) is the known finding C06_REALDOUBLE_TIMES_EXACT_ZERO. "
+        "Exact x exact dispatch and the values of floating-point results are not under contract.",
    note="Trusted: ghost-number prelude (finite kinds: is_zero/is_positive/... read a ghost value; finite classes forward to the Infty/NaN methods), extraction rules, CBMC.",
    tech="contract-based deductive verification with CBMC on mechanically extracted function text (route F), callers checked against assumed contracts of the finite number classes"),
  "C05": dict(cat="proof", design="§4 C05",
